@@ -201,4 +201,30 @@ func init() {
 		Variant{Name: "early return with the tracker lock held", Property: "C20", File: trk,
 			Old: "func (st *StreamTracker) GetStreamCount() int {\n\tst.mu.RLock()\n\tdefer st.mu.RUnlock()\n\n\treturn len(st.streams)\n}", New: "func (st *StreamTracker) GetStreamCount() int {\n\tst.mu.RLock()\n\tif len(st.streams) == 0 {\n\t\treturn 0\n\t}\n\tn := len(st.streams)\n\tst.mu.RUnlock()\n\treturn n\n}", Expect: "O20.4"},
 	)
+	// ---- C10
+	prov := "transport/mux/provider.go"
+	mmm := "transport/mux/multi_mux_manager.go"
+	mses := "transport/mux/session/managed_mux_session.go"
+	addVariants(
+		Variant{Name: "ping-failure branch continues without Release", Property: "C10", File: prov,
+			Old: "\t\t\t\t\t_ = session.Close()\n\t\t\t\t\t_ = conn.Close()\n\t\t\t\t\tm.muxPermits.Release(1)\n\t\t\t\t\tcontinue connect", New: "\t\t\t\t\t_ = session.Close()\n\t\t\t\t\t_ = conn.Close()\n\t\t\t\t\tcontinue connect", Expect: "O10.1"},
+		Variant{Name: "extra AllowMoreConns in unregisterMux", Property: "C10", File: mmm,
+			Old: "\tdelete(m.muxes, id)\n\tm.notifyChange()\n\tm.muxesLock.Unlock()", New: "\tdelete(m.muxes, id)\n\tm.notifyChange()\n\tm.muxesLock.Unlock()\n\tm.muxProvider.AllowMoreConns(1)", Expect: "O10.3"},
+		Variant{Name: "conn.Close dropped on ping failure", Property: "C10", File: prov,
+			Old: "\t\t\t\t\t// Make sure session & conn close on error\n\t\t\t\t\t_ = session.Close()\n\t\t\t\t\t_ = conn.Close()\n", New: "\t\t\t\t\t// Make sure session & conn close on error\n\t\t\t\t\t_ = session.Close()\n", Expect: "O10.4"},
+		Variant{Name: "callback not invoked by waitAndCleanup", Property: "C10", File: mses,
+			Old: "\ts.state.Store(&MuxSessionInfo{State: Closed, Err: s.state.Load().Err})\n\tafterShutdown()\n", New: "\ts.state.Store(&MuxSessionInfo{State: Closed, Err: s.state.Load().Err})\n\tif s.state.Load().Err == nil {\n\t\tafterShutdown()\n\t}\n", Expect: "O10.2"},
+		Variant{Name: "release on connect failure and again after logging", Property: "C10", File: prov,
+			Old: "\t\t\t\t\tm.muxPermits.Release(1)\n\t\t\t\t\tm.logger.Info(\"Couldn't connect to mux TCP destination\", tag.Error(err))\n", New: "\t\t\t\t\tm.muxPermits.Release(1)\n\t\t\t\t\tm.logger.Info(\"Couldn't connect to mux TCP destination\", tag.Error(err))\n\t\t\t\t\tm.muxPermits.Release(1)\n", Expect: "O10.1"},
+		Variant{Name: "AddConnection drops a late session", Property: "C10", File: mmm,
+			Old: "\t\t_ = yamuxSession.Close()\n\t\t_ = conn.Close()\n\t\treturn\n", New: "\t\treturn\n", Expect: "O10.4"},
+		Variant{Name: "sessions closed before the provider stopped", Property: "C10", File: mmm,
+			Old: "\t// This Close() blocks until the provider is closed\n\tm.muxProvider.WaitForClose()\n", New: "", Expect: "O10.5"},
+		Variant{Name: "session not stored in the table when a listener is absent", Property: "C10", File: mmm,
+			Old: "\tm.muxes[newId] = session.NewManagedMuxSession(", New: "\t_ = session.NewManagedMuxSession(", Expect: "O10.4"},
+		Variant{Name: "session cleanup goroutine only with builders", Property: "C10", File: mses,
+			Old: "\tgo waitAndCleanup(s, afterShutdown)\n", New: "\tif len(builders) > 0 {\n\t\tgo waitAndCleanup(s, afterShutdown)\n\t}\n", Expect: "O10.2"},
+		Variant{Name: "receiver drops a connection accepted at shutdown", Property: "C10", File: rcv,
+			Old: "\t\tif conn != nil {\n\t\t\t// Accepted just as we shut down: nobody will use this connection\n\t\t\t_ = conn.Close()\n\t\t}\n", New: "", Expect: "O10.4"},
+	)
 }
